@@ -31,6 +31,40 @@ def raw_succs(t):
     return []
 
 
+# enum type (printed without generic arguments) -> number of variants; filled from the ADT facts on load
+ENUM_VARIANTS = {'std::option::Option': 2, 'std::result::Result': 2, 'std::ops::ControlFlow': 2, 'std::cmp::Ordering': 3}
+
+
+def _strip_generics(s):
+    out = []; depth = 0
+    for ch in s:
+        if ch == '<': depth += 1
+        elif ch == '>': depth -= 1
+        elif depth == 0: out.append(ch)
+    return ''.join(out)
+
+
+def _exhaustive_discr_switch(blk, t):
+    """switch on `discriminant(place)` (computed in the same block) whose arms cover every variant: `otherwise` is dead."""
+    on = t['on']
+    if on.get('o') not in ('move', 'copy') or on['p']['proj']:
+        return False
+    for s in reversed(blk['stmts']):
+        if s['s'] == 'assign' and s['lhs']['l'] == on['p']['l'] and not s['lhs']['proj']:
+            if s['rv']['r'] != 'discr':
+                return False
+            ty = _strip_generics(s['rv']['p']['ty']).lstrip('&').strip()
+            if ty.startswith('mut '): ty = ty[4:]
+            n = ENUM_VARIANTS.get(ty)
+            if n is None:
+                return False
+            vals = {int(a[0]) for a in t['arms']}
+            if ty == 'std::cmp::Ordering':
+                return len(vals) >= 3
+            return all(v in vals for v in range(n))
+    return False
+
+
 class CFG:
     def __init__(self, body, prune=True):
         self.body = body
@@ -50,6 +84,10 @@ class CFG:
                         if int(val) == v:
                             tgt = to
                     s = [tgt]
+                elif _exhaustive_discr_switch(b, t):
+                    s = []
+                    for a in t['arms']:
+                        if a[1] not in s: s.append(a[1])
             self.succ.append(s)
         # reachability from entry
         self.reach = set(); st = [0]
